@@ -52,13 +52,18 @@ def stationarity(n, T, pi):
              conj([sum([pi[i] * T[i][j] for i in range(1, n)], pi[0] * T[0][j]) == pi[j] for j in range(n)]))]
 
 
-def builder_job(which, n, prior=False, eq=True, zero_rows=False):
+def builder_job(which, n, prior=False, eq=True, zero_rows=False, pattern=None):
     b = loader.load('enspara.msm.builders')
 
     def path(ctx):
         stubs.EIG_CONTRACT[0] = stubs.perron_contract
         ctx.resolve_masks = True
         C = sym_counts(ctx, n, allow_zero_rows=zero_rows, positive=(which == 'normalize' and eq))
+        if pattern is not None:
+            for i in range(n):
+                for j in range(n):
+                    if not pattern[i][j]:
+                        C[i][j] = 0.0
         pr = None
         if prior:
             pr = core.fresh_real('prior')
@@ -108,7 +113,7 @@ def builder_job(which, n, prior=False, eq=True, zero_rows=False):
             return obs
 
         def witness(model):
-            Cc = [[float(ev(model, x)) for x in row] for row in C]
+            Cc = [[float(ev(model, x)) if isinstance(x, SVal) else float(x) for x in row] for row in C]
             pc = float(ev(model, pr)) if pr is not None else None
             out = {'inputs': {'builder': which, 'counts': Cc, 'prior_counts': pc, 'calculate_eq_probs': eq}}
             Ac = np.array(Cc)
@@ -220,4 +225,8 @@ def jobs(tier):
                 add('%s,n=%d,prior=%s,eq' % (which, n, prior), which=which, n=n, prior=prior, eq=True)
             add('%s,n=%d,no-eq' % (which, n), which=which, n=n, eq=False)
         add('normalize,n=%d,zero-rows,no-eq' % n, which='normalize', n=n, eq=False, zero_rows=True)
+    # irreducible but periodic count patterns (eigenvalues other than 1 on the unit circle)
+    add('normalize,n=2,periodic-2-cycle,eq', which='normalize', n=2, eq=True, pattern=[[0, 1], [1, 0]])
+    add('normalize,n=3,periodic-3-cycle,eq', which='normalize', n=3, eq=True, pattern=[[0, 1, 0], [0, 0, 1], [1, 0, 0]])
+    add('normalize,n=3,bipartite,eq', which='normalize', n=3, eq=True, pattern=[[0, 0, 1], [0, 0, 1], [1, 1, 0]])
     return J
